@@ -107,6 +107,8 @@ def run(ctx):
             for op in batch:
                 if op["op"] == "rm_iv" and not model.ivs[op["id"]]["sec"]:
                     continue
+                if op["op"] == "rm_blk" and not model.blks[op["id"]]["iv"]:
+                    continue
                 do(op)
             for k, (name, rep) in enumerate(zip(SCHEDULES, reps)):
                 r = srnd[k]
